@@ -56,6 +56,7 @@ def stmt? : Nat → Sexp → Option Stmt
     | .list [.atom "star", m, lvl] => do let mm ← strs? m; let l ← lvl.nat?; pure (.fromStar mm l)
     | .list [.atom "fromdot", lvl, .atom n, a] => do let l ← lvl.nat?; let o ← optStr? a; pure (.fromDot l n o)
     | .list [.atom "setctx", nm] => strs? nm >>= fun n => some (.setctx n)
+    | .list [.atom "setall", l] => strs? l >>= fun n => some (.setAll n)
     | _ => none
 
 def block? (x : Sexp) : Option Block := Sexp.listOf? (stmt? 32) x
@@ -103,6 +104,7 @@ def showVal (cs : List Ctx) (fnames : List String) : Val → String
   | .int n => toString n
   | .fn c fid => s!"fn:{ctxLabel cs c}:{fnames.getD fid "?"}"
   | .mod c => s!"mod:{ctxLabel cs c}"
+  | .names l => s!"<list:{",".intercalate l}>"
 
 def insertSorted (x : String) : List String → List String
   | [] => [x]
